@@ -6,6 +6,7 @@
 //   h_geom poly  G outdir          -> outdir/tri.json, outdir/quad_<p1>.json
 //   h_geom big   N seed outfile    -> random tuples with coordinates up to 2^20
 #include "vtrace.h"
+#include <fstream>
 #include "libavoid/geometry.h"
 #include "libavoid/geomtypes.h"
 #include <iostream>
@@ -160,6 +161,39 @@ static int bigMode(int n, uint64_t seed, const std::string &file)
     return 0;
 }
 
+// Simplify.tla (B2): Polygon::simplify() with a live checkpoint cache.
+//   input lines: n (x y)*n  m (value x y)*m      output: {"chunk":C,"recs":[{ps,cps,qs,cq}...]}
+static int simpMode(const char *inPath, const char *outPath, const char *chunk)
+{
+    std::ifstream in(inPath);
+    vt::Out o(outPath);
+    o.line(std::string("{\"chunk\":") + chunk + ",\"recs\":[");
+    int n; bool first = true;
+    while (in >> n) {
+        Polygon p(n);
+        for (int i = 0; i < n; i++) { double x, y; in >> x >> y; p.ps[i] = Point(x, y); }
+        int m; in >> m;
+        for (int i = 0; i < m; i++) { long v; double x, y; in >> v >> x >> y; p.checkpointsOnRoute.push_back(std::make_pair((size_t)v, Point(x, y))); }
+        Polygon q = p.simplify();
+        vt::J j; j.obj().k("ps").arr();
+        for (size_t i = 0; i < p.size(); i++) j.arr().i((long long)p.ps[i].x).i((long long)p.ps[i].y).end();
+        j.end().k("cps").arr();
+        for (auto &c : p.checkpointsOnRoute) j.arr().i((long long)c.first).i((long long)c.second.x).i((long long)c.second.y).end();
+        j.end().k("qs").arr();
+        for (size_t i = 0; i < q.size(); i++) j.arr().i((long long)q.ps[i].x).i((long long)q.ps[i].y).end();
+        j.end().k("cq").arr();
+        for (auto &c : q.checkpointsOnRoute) {
+            // size_t values that wrapped below zero are written as negative numbers (TLC integers are 32-bit)
+            long long v = c.first > (size_t)1000000 ? -(long long)(~c.first + 1) : (long long)c.first;
+            j.arr().i(v).i((long long)c.second.x).i((long long)c.second.y).end();
+        }
+        j.end().end();
+        o.line((first ? "" : ",") + j.out); first = false;
+    }
+    o.line(std::string("]}"));
+    return 0;
+}
+
 int main(int argc, char **argv)
 {
     if (argc < 2) return 2;
@@ -167,6 +201,7 @@ int main(int argc, char **argv)
     try {
         if (m == "grid" && argc == 4) return gridMode(atoi(argv[2]), argv[3]);
         if (m == "poly" && argc == 4) return polyMode(atoi(argv[2]), argv[3]);
+        if (m == "simp" && argc == 5) return simpMode(argv[2], argv[3], argv[4]);
         if (m == "big" && argc == 5) return bigMode(atoi(argv[2]), strtoull(argv[3], 0, 10), argv[4]);
     } catch (vpsc::CriticalFailure &f) {
         fprintf(stderr, "CriticalFailure: %s\n", f.what().c_str());
